@@ -96,6 +96,7 @@ class SessionCheck(Check):
             self.note("ev_reset_after_first_dispatches", stats.get("early_reset", 0))
             self.note("sparsely_observed_sessions", stats.get("sparse", 0))
             self.note("episodic_sessions", stats.get("episodic", 0))
+            self.note("ev_dispatch_during_which_an_observer_unsubscribes_itself", stats.get("self_unsubscribe", 0))
             self.note("sessions_watched_by_a_residual_graph_updater", stats.get("foreign_updater", 0))
             self.note("ev_rejected_observer_construction", stats.get("rejected_construction", 0))
             if all(job[0][1] == 0 for job in case["spec"] if job):
